@@ -572,6 +572,9 @@ cdef class ZOrderNNPS(NNPS):
 
         self._fill_nbr_boxes()
 
+        # the arrays the current context points to were re-allocated
+        self.set_context(self.src_index, self.dst_index)
+
     @cython.cdivision(True)
     cpdef _bin(self, int pa_index, UIntArray indices):
         pass
@@ -905,6 +908,9 @@ cdef class ExtendedZOrderNNPS(ZOrderNNPS):
         self.max_cid = max_cid # this is max_cid + 1
 
         self._fill_nbr_boxes()
+
+        # the arrays the current context points to were re-allocated
+        self.set_context(self.src_index, self.dst_index)
 
     cpdef set_context(self, int src_index, int dst_index):
         """Set context for nearest neighbor searches.
